@@ -90,10 +90,21 @@ def _generator(repo):
     if ast.unparse(r.func.value) != 'basis' or [ast.unparse(a).replace(' ', '') for a in r.args] != ['basis.shape[0]', '-1'] or r.keywords:
         raise Refuse('zernike_basis: vectorised reshape changed')
     notes.append('zernike_basis: basis[position] = zernike(mask, mode at that position, normalize, rho, theta); vectorised as reshape(k, -1)')
-    # ---- zernike_fit
+    # ---- zernike_fit / zernike_remove: the call wiring becomes DEFINITIONS (projections of the caller's argument record)
+    def field(src, caller):
+        if src in caller: return f'a.{src}'
+        if src == 'True': return 'true'
+        if src == 'False': return 'false'
+        raise Refuse(f'argument expression {src!r} is not a caller parameter or a Boolean literal')
+    def record(binding, fields, caller):
+        miss = [f for f in fields if f not in binding]
+        if miss: raise Refuse(f'unbound parameters {miss}')
+        return '{ ' + ', '.join(f'{f} := {field(binding[f], caller)}' for f in fields) + ' }'
+    fit_params, _ = _params(ZF); rem_params, _ = _params(ZR)
+    if fit_params != ['opd', 'mask', 'modes', 'normalize', 'rho', 'theta']: raise Refuse(f'zernike_fit signature {fit_params}')
+    if rem_params != ['opd', 'mask', 'modes', 'rho', 'theta']: raise Refuse(f'zernike_remove signature {rem_params}')
     b = _bind(_one(_calls(ZF, 'zernike_basis'), 'zernike_fit: zernike_basis call'), ZB)
-    if b != {'mask': 'mask', 'modes': 'modes', 'vectorize': 'True', 'normalize': 'normalize', 'rho': 'rho', 'theta': 'theta'}:
-        raise Refuse(f'zernike_fit requests the basis with {b}')
+    fit_basis = record(b, ['mask', 'modes', 'vectorize', 'normalize', 'rho', 'theta'], fit_params)
     _one(_calls(ZF, 'pinv'), 'zernike_fit: pinv call')
     es = _one(_calls(ZF, 'einsum'), 'zernike_fit: einsum')
     if len(es.args) != 3 or ast.literal_eval(es.args[0]).replace(' ', '') != 'ij,i->j': raise Refuse('zernike_fit: einsum subscripts changed')
@@ -101,23 +112,28 @@ def _generator(repo):
     if not (isinstance(rav, ast.Call) and isinstance(rav.func, ast.Attribute) and rav.func.attr in ('ravel', 'flatten') and ast.unparse(rav.func.value) == 'opd'
             and not rav.args and all(k.arg == 'order' and ast.literal_eval(k.value) == 'C' for k in rav.keywords)):
         raise Refuse('zernike_fit: the OPD is not flattened in C order: ' + ast.unparse(rav))
-    notes.append("zernike_fit: einsum('ij,i->j', pinv(zernike_basis(mask, modes, True, normalize, rho, theta)), opd.ravel())")
-    # ---- zernike_remove
+    notes.append("zernike_fit: einsum('ij,i->j', pinv(zernike_basis(<Gen.fitBasisArgs>)), opd.ravel())")
     _, zf_def = _params(ZF); _, zb_def = _params(ZB)
     bf = _bind(_one(_calls(ZR, 'zernike_fit'), 'zernike_remove: zernike_fit call'), ZF)
     bb = _bind(_one(_calls(ZR, 'zernike_basis'), 'zernike_remove: zernike_basis call'), ZB)
-    if bf != {'opd': 'opd', 'mask': 'mask', 'modes': 'modes', 'normalize': zf_def['normalize'], 'rho': 'rho', 'theta': 'theta'}:
-        raise Refuse(f'zernike_remove fits with {bf}')
-    if bb != {'mask': 'mask', 'modes': 'modes', 'vectorize': 'False', 'normalize': zb_def['normalize'], 'rho': 'rho', 'theta': 'theta'}:
-        raise Refuse(f'zernike_remove builds the basis with {bb}')
-    if zf_def['normalize'] != zb_def['normalize']: raise Refuse('zernike_remove: fit and basis use different default normalisation')
+    rem_fit = record(bf, ['opd', 'mask', 'modes', 'normalize', 'rho', 'theta'], rem_params)
+    rem_basis = record(bb, ['mask', 'modes', 'vectorize', 'normalize', 'rho', 'theta'], rem_params)
     es = _one(_calls(ZR, 'einsum'), 'zernike_remove: einsum')
     if len(es.args) != 3 or ast.literal_eval(es.args[0]).replace(' ', '') != 'ijk,i->jk': raise Refuse('zernike_remove: einsum subscripts changed')
-    notes.append(f"zernike_remove: fit and basis with the same (mask, modes, rho, theta), normalize={zf_def['normalize']}; residual = opd - einsum('ijk,i->jk', basis, coeffs)")
+    notes.append("zernike_remove: residual = opd - einsum('ijk,i->jk', zernike_basis(<Gen.removeBasisArgs>), zernike_fit(<Gen.removeFitArgs>))")
     lean = ('/-- `zernike_compose`: the Noll index multiplied by the coefficient at 0-based position `i` -/\n'
             f'def composeNoll (i : Int) : Int := {lean_idx}\n\n'
-            '/-- the normalisation `zernike_remove` uses for both its fit and its basis (library default) -/\n'
-            f"def removeNormalize : Bool := {'true' if zf_def['normalize'] == 'True' else 'false'}\n")
+            '/-- argument record of `zernike_fit` (and, without `normalize`, of `zernike_remove`) -/\n'
+            'structure FitArgs (O Mk Md C : Type) where\n  opd : O\n  mask : Mk\n  modes : Md\n  normalize : Bool\n  rho : C\n  theta : C\n\n'
+            'structure RemoveArgs (O Mk Md C : Type) where\n  opd : O\n  mask : Mk\n  modes : Md\n  rho : C\n  theta : C\n\n'
+            '/-- argument record of `zernike_basis` -/\n'
+            'structure BasisArgs (Mk Md C : Type) where\n  mask : Mk\n  modes : Md\n  vectorize : Bool\n  normalize : Bool\n  rho : C\n  theta : C\n\n'
+            '/-- `zernike_fit`: the arguments with which it requests its basis -/\n'
+            f'def fitBasisArgs {{O Mk Md C : Type}} (a : FitArgs O Mk Md C) : BasisArgs Mk Md C :=\n  {fit_basis}\n\n'
+            '/-- `zernike_remove`: the arguments of its `zernike_fit` call -/\n'
+            f'def removeFitArgs {{O Mk Md C : Type}} (a : RemoveArgs O Mk Md C) : FitArgs O Mk Md C :=\n  {rem_fit}\n\n'
+            '/-- `zernike_remove`: the arguments of its `zernike_basis` call -/\n'
+            f'def removeBasisArgs {{O Mk Md C : Type}} (a : RemoveArgs O Mk Md C) : BasisArgs Mk Md C :=\n  {rem_basis}\n')
     return lean, notes
 
 MODULES = [{'name': 'ZernikeCalls', 'src': 'lentil/zernike.py', 'generator': _generator, 'props': ['C12']}]
